@@ -253,7 +253,7 @@ def _fsum(a):
 
 
 def _describe(case):
-    keys = ['env', 'model', 'els', 'N', 'profile', 'bc', 'it', 'calls', 'temp', 'rule', 'bcapi', 'nsteps', 'cv', 'record']
+    keys = ['env', 'model', 'els', 'N', 'profile', 'bc', 'it', 'calls', 'temp', 'rule', 'bcapi', 'nsteps', 'cv', 'record', 'between']
     return ' '.join('%s=%s' % (k, case[k]) for k in keys if k in case)
 
 
@@ -300,8 +300,12 @@ def _run_cfg(case):
     m.addCouplingModel(mon)
     sim = case['nsteps'] * dt0
     outcome = None
+    xmins = []          # minimum composition in force during each solve call (case['between'] changes it between the calls)
     for k in range(case['calls']):
         mon.call, mon.in_call = k, 0
+        if k > 0 and case.get('between'):
+            m.constraints.minComposition = case['between']['minComposition'][(k - 1) % len(case['between']['minComposition'])]
+        xmins.append(m.constraints.minComposition)
         try:
             m.solve(sim, solverType=mon.iterator, minDtFrac=MIN_DT_FRAC)
         except Horizon:
@@ -324,6 +328,7 @@ def _run_cfg(case):
         s, (pt, px, pc) = steps[k], snaps[k]
         pre, out, dt = s['pre'], s['out'], s['dt']
         where = 'call %d step %d t=%.6g' % (s['call'], k, s['t'])
+        xmin = xmins[s['call']]
         # the solver starts from the model's own current state / time
         if s['mt'] != s['t'] or s['mx'].tobytes() != pre.tobytes():
             bad('step/start-state', '%s: solver starts from t=%r but model holds t=%r (state equal: %s)'
@@ -414,6 +419,7 @@ def _run_cfg(case):
                 for e in range(nel - 1):
                     d = _fsum(pre[e]) - _fsum(qx[e])
                     tol = 8 * N * np.finfo(float).eps * float(np.max(np.abs(qx[e])))   # nothing happens between calls
+                    # (a changed minimum composition acts through the clip of the next accepted step, not between the calls)
                     if not abs(d) <= tol:
                         bad('across-solve/sum', '%s: element %d mesh sum changed by %.6e between the end of solve call %d and '
                             'the start of call %d (N*nElements*min = %.3e)' % (where, e, d, qc, s['call'], N * nel * xmin))
@@ -672,6 +678,29 @@ def run(ctx):
                                     ecases.append(c)
     res = ctx.product_run('edge', 'checks.c04:run_cfg', ecases)
     ctx.extra['clip_steps_in_edge_product'] = int(sum(r.get('info', {}).get('clip_steps', 0) for r in res))
+
+    # --- stage 2b: the public constraint minComposition changed between consecutive solve calls (raised, then lowered again): every
+    # step is judged against the value in force during its solve call.  Flux-only boundary mixes of the edge product (a fixed node
+    # below a raised minimum would contradict the bounds clause by construction); single-phase model, whose provider is defined
+    # for any composition in (0, 1)
+    rcases = []
+    for c in ecases:
+        if c['model'] != 'single' or any('c' in b for b in c['bc']) or c.get('jmult', 1.0) != 1.0:
+            continue
+        rcases.append(dict(c, calls=3, between={'minComposition': [1e-4, 1e-9]}))
+    # ... and raised into the profile itself (0.15 with nodes at 0.10: the next accepted step has to lift them), closed and flux
+    # boundaries, interior profiles of the conservation product
+    for els in ['bin', 'tern']:
+        for bc1 in (['f0', 'f0'], ['+J', '-J']):
+            for prof in ['step', 'linear']:
+                for N in [2, 5]:
+                    for it in its:
+                        rcases.append({'model': 'single', 'els': els, 'N': N, 'profile': prof, 'bc': [bc1] * (len(ELEMENTS[els]) - 1),
+                                       'it': it, 'calls': 3, 'temp': 'iso', 'nsteps': nsteps,
+                                       'between': {'minComposition': [0.15, 1e-9]}})
+    ctx.bounds['reconfigure'] = ('single-phase model, 3 solve calls, minComposition changed between the calls: edge-product runs without '
+                                 'composition boundaries 1e-8 -> 1e-4 -> 1e-9; interior profiles 1e-8 -> 0.15 -> 1e-9')
+    ctx.product_run('reconfigure', 'checks.c04:run_cfg', rcases)
 
     # --- stage 3: boundary-condition API variants (binary + ternary) ---------------------------------------------
     acases = []
